@@ -159,14 +159,18 @@ def expected_attribution(lines):
         elif l['level'] == 1 and 'Assets' in l['text']:
             while e + 1 < n and lines[e + 1]['t'] == 'model' and lines[e + 1].get('level') == 2:
                 e += 1
-            # comments between a posting and its own meta belong to the posting's extent only if a meta follows
-            k = e
-            while k + 1 < n and lines[k + 1]['t'] == 'comment' and lines[k + 1]['ind']:
-                k += 1
-            if k > e and k + 1 < n and lines[k + 1]['t'] == 'model' and lines[k + 1].get('level') == 2:
-                e = k + 1
-                while e + 1 < n and ((lines[e + 1]['t'] == 'model' and lines[e + 1].get('level') == 2)):
-                    e += 1
+            # comments between a posting and its own meta belong to the posting's extent only if a meta follows -
+            # again and again (meta, comments, meta, comments, meta ...: the posting ends with its LAST meta line)
+            while True:
+                k = e
+                while k + 1 < n and lines[k + 1]['t'] == 'comment' and lines[k + 1]['ind']:
+                    k += 1
+                if k > e and k + 1 < n and lines[k + 1]['t'] == 'model' and lines[k + 1].get('level') == 2:
+                    e = k + 1
+                    while e + 1 < n and ((lines[e + 1]['t'] == 'model' and lines[e + 1].get('level') == 2)):
+                        e += 1
+                else:
+                    break
         models.append((i, e, l['ind']))
     for s, e, ind in sorted(models):
         ends.setdefault(e, []).append((s, ind))
